@@ -65,6 +65,7 @@ pub fn subject_cfg(rng: &mut Rng, tier: Tier) -> GenCfg {
         unsupported: if rng.chance(1, 6) { 1 } else { 0 },
         placeholder_strings: false,
         risky_specials: false,
+        layout_variants: rng.chance(1, 4),
     }
 }
 
@@ -96,12 +97,41 @@ fn clock_script(rng: &mut Rng, policy: TickPolicy) -> Vec<i64> {
 
 const SHIFTS: [i64; 12] = [0, 1, 59, 3_600, 86_400, 400 * 86_400, 1 << 33, -1, -59, -3_600, -86_400, -400 * 86_400];
 
+/// Thorough tier only: a very long history over many distinct small inputs — state that needs
+/// tens of thousands of calls or thousands of distinct inputs to go wrong (interner or cache
+/// capacity, a 16-bit counter wrapping).
+fn marathon(rng: &mut Rng) -> Scenario {
+    let n_subjects = *rng.pick(&[3usize, 300, 5000]);
+    let subjects: Vec<String> = (0..n_subjects)
+        .map(|i| match i % 4 {
+            0 => format!("-name f{i}.dat -mtime -{} -print", i % 90),
+            1 => format!("-iname F{i}* -o -size +{}k -fprint out{}.txt", i % 900, i % 3),
+            2 => format!("-path 'd{i}/*' -uid {} -print0", i % 5000),
+            _ => format!("! -name f{i} -printf '%p {i}\\n'"),
+        })
+        .collect();
+    let n_ops = *rng.pick(&[20_000usize, 70_000]);
+    let mut ops = Vec::with_capacity(n_ops);
+    for k in 0..n_ops {
+        if k % 5000 == 4999 {
+            ops.push(Op::ClockShift { delta: 86_400 });
+        }
+        ops.push(Op::Compile { subj: rng.usize_below(n_subjects), slot: 0, script: vec![], twice: false });
+    }
+    Scenario { subjects, paths: vec![FIXED_PATH.to_string()], clock_start: CLOCK_FLOOR + rng.below(1 << 30), hash_seed: rng.next_u64(), ops }
+}
+
 pub fn scenario(rng: &mut Rng, tier: Tier) -> Scenario {
+    if tier == Tier::Thorough && rng.chance(1, 25_000) {
+        return marathon(rng);
+    }
     let n_subjects = rng.range(1, 4) as usize;
     let mut subjects = vec![];
     for _ in 0..n_subjects {
         if rng.chance(1, 12) {
             subjects.push(rng.pick(&gen::ERROR_SUBJECTS).to_string());
+        } else if rng.chance(1, 40) {
+            subjects.push(rng.pick(&gen::DEGENERATE_SUBJECTS).to_string());
         } else {
             let cfg = subject_cfg(rng, tier);
             subjects.push(gen::expression(rng, &cfg));
@@ -230,9 +260,25 @@ fn clock_sized(run: &str) -> Option<u128> {
     }
 }
 
+/// Large numbers that the input itself explains: every number written in the expression, alone or
+/// multiplied by a size unit.
+fn input_constants(subject: &str) -> std::collections::BTreeSet<u128> {
+    let mut out = std::collections::BTreeSet::new();
+    // the unit multipliers themselves appear in size tests
+    out.extend([1u128 << 30, 1 << 40]);
+    for run in digit_runs(subject).1 {
+        if let Ok(n) = run.parse::<u128>() {
+            for mult in [1u128, 2, 512, 1024, 1 << 20, 1 << 30, 1 << 40] {
+                out.insert(n.saturating_mul(mult));
+            }
+        }
+    }
+    out
+}
+
 /// Program with every in-window clock value replaced by a marker; Err if a clock-sized value
-/// lies outside the window of the call that produced the text.
-fn normalise(text: &str, w: &Window) -> Result<(String, usize), String> {
+/// is neither inside the window of the call that produced the text nor explained by the input.
+fn normalise(text: &str, w: &Window, constants: &std::collections::BTreeSet<u128>) -> Result<(String, usize), String> {
     let (skeleton, runs) = digit_runs(text);
     let (lo, hi) = (w.lo() as u128, w.hi() as u128);
     let mut out = String::with_capacity(text.len());
@@ -242,6 +288,7 @@ fn normalise(text: &str, w: &Window) -> Result<(String, usize), String> {
         if ch == '\u{1}' {
             let run = it.next().unwrap();
             match clock_sized(run) {
+                Some(v) if constants.contains(&v) => out.push_str(run),
                 Some(v) if v >= lo && v <= hi => {
                     embedded += 1;
                     out.push_str("<T>");
@@ -278,7 +325,7 @@ fn first_diff(a: &str, b: &str) -> String {
     format!("at byte {i}: {:?} vs {:?}", cut(a), cut(b))
 }
 
-pub fn judge(_sc: &Scenario, obs: &[(usize, Obs)]) -> Judgement {
+pub fn judge(sc: &Scenario, obs: &[(usize, Obs)]) -> Judgement {
     let mut j = Judgement::default();
     let mut hash_diverged = false;
     let fail = |class: &str, detail: String, ops: Vec<usize>| Violation { class: class.into(), detail, ops };
@@ -375,12 +422,13 @@ pub fn judge(_sc: &Scenario, obs: &[(usize, Obs)]) -> Judgement {
             return j;
         }
         let list: Vec<&C> = list.iter().map(|c| c.as_ref().unwrap()).collect();
+        let constants = sc.subjects.get(*subj).map(|t| input_constants(t)).unwrap_or_default();
         let mut reference: Option<(usize, String)> = None;
         for c in &list {
             j.bump("compiles_compared", 1);
             let norm = match c.text {
                 Err(e) => format!("ERR {e}"),
-                Ok(t) => match normalise(t, c.window) {
+                Ok(t) => match normalise(t, c.window, &constants) {
                     Err(why) => {
                         j.violation = Some(fail("embedded-second-outside-call", format!("subject {subj}, op {}: {why}", c.op), vec![c.op]));
                         return j;
